@@ -65,6 +65,13 @@ func (P *Program) publishedOne(pb *Published) []*Obligation {
 	for _, f := range pb.Mutable {
 		mutable[f] = true
 	}
+	for _, m := range structFieldRen {
+		for old, nw := range m {
+			if mutable[old] {
+				mutable[nw] = true // the field was renamed in place since the contracts were frozen
+			}
+		}
+	}
 	a := &pubAnalysis{P: P, pb: pb, memo: map[pubKey]bool{}}
 	// functions that read S.f
 	type rootUse struct {
